@@ -235,6 +235,15 @@ Crash ==
     /\ hist' = H([a |-> "crash", kind |-> "", ts |-> "", txs |-> <<>>, ok |-> TRUE, w |-> wc, height |-> 0, sth |-> 0])
     /\ UNCHANGED <<kv, replies, published, execLog, taken, wc>>
 
+\* the process is stopped (or killed) at rest, between two production steps: nothing is in flight
+Stop ==
+    /\ pc = "idle"
+    /\ crashes < MaxCrashes
+    /\ crashes' = crashes + 1
+    /\ pc' = "down"
+    /\ mem' = NoState /\ cur' = NoBlock /\ batch' = NoBatch
+    /\ UNCHANGED <<kv, replies, published, execLog, taken, wc, hist>>
+
 Next ==
     \/ RestartLoad \/ RestartHeight \/ Begin
     \/ \E k \in {"nil", "err"} : FetchNone(k)
@@ -244,7 +253,7 @@ Next ==
     \/ TsGuard \/ CreateAndEarlySave
     \/ \E ok \in BOOLEAN : Execute(ok)
     \/ SignValidate \/ FinalSave \/ SetHeight \/ SetState \/ Broadcast
-    \/ Halt \/ Crash
+    \/ Halt \/ Crash \/ Stop
 
 Fairness ==
     /\ WF_vars(RestartLoad) /\ WF_vars(RestartHeight) /\ WF_vars(Begin)
